@@ -1,3 +1,4 @@
+import Gen.Echo
 import Drand.Daemon.Dispatch
 namespace Drand.Driver.DispatchD
 open Drand.Daemon
@@ -16,7 +17,7 @@ structure DispatchState where
   deriving Repr
 
 def dispatchInit : DispatchState :=
-  { cfg := { echoNonBlocking := false, echoCap := 3 }, node := none, dkgWedged := false, bphase := none, dkgOps := 0, bOps := 0 }
+  { cfg := { echoNonBlocking := Gen.echoPassNonBlocking, echoCap := 3 }, node := none, dkgWedged := false, bphase := none, dkgOps := 0, bOps := 0 }
 
 def probeEvery : Nat := 4
 
